@@ -16,23 +16,42 @@ TGT = "/tmp/wt-seedtest-target"
 
 def confirm(d):
     """the seed's own claims: demo passes on the clean tree, fails with the patch, and the
-    existing suite still passes with the patch"""
+    existing suite still passes with the patch.  meta['demo_kind']: 'test' (default) a #[test]
+    file; 'must_not_compile': a client program rejected on the clean tree and accepted with the
+    patch; 'must_compile': accepted on the clean tree, rejected with the patch."""
+    meta = json.load(open(d + "/meta.json"))
+    kind = meta.get("demo_kind", "test")
     demo = open(d + "/demo.rs").read()
-    feats = " --features verif-hooks" if "verif-hooks" in demo.split("*/")[0] + demo[:1500] else ""
+    feats = " --features verif-hooks" if "verif-hooks" in demo[:2500] else ""
     env = dict(os.environ, CARGO_TARGET_DIR=TGT, CARGO_NET_OFFLINE="true")
-    out = {}
+    out = {"demo_kind": kind}
+    norun = " --no-run" if kind != "test" else ""
+    def run_demo(extra=""):
+        c = sh("cargo test --offline%s --test zz_seed_demo%s%s 2>&1 | tail -30" % (extra, feats, norun), cwd=WT, env=env)
+        compiled = "error[" not in c.stdout and "error: could not compile" not in c.stdout and "aborting due to" not in c.stdout
+        passed = compiled and ("test result: ok" in c.stdout or kind != "test") and "FAILED" not in c.stdout
+        return compiled, passed
     shutil.copy(d + "/demo.rs", WT + "/tests/zz_seed_demo.rs")
-    c = sh("cargo test --offline --test zz_seed_demo%s 2>&1 | tail -5" % feats, cwd=WT, env=env)
-    out["demo_passes_on_clean_tree"] = "test result: ok" in c.stdout
-    a = sh("git -C %s apply %s/patch.diff" % (WT, d))
-    c = sh("cargo test --offline --test zz_seed_demo%s 2>&1 | tail -5" % feats, cwd=WT, env=env)
-    out["demo_fails_with_patch"] = "test result: FAILED" in c.stdout or "error: test failed" in c.stdout
-    if not out["demo_fails_with_patch"]:
-        c2 = sh("cargo test --offline --release --test zz_seed_demo%s 2>&1 | tail -5" % feats, cwd=WT, env=env)
-        out["demo_fails_with_patch"] = "FAILED" in c2.stdout or "error: test failed" in c2.stdout
+    compiled, passed = run_demo()
+    if kind == "must_not_compile":
+        out["demo_ok_on_clean_tree"] = not compiled
+    else:
+        out["demo_ok_on_clean_tree"] = passed
+    sh("git -C %s apply %s/patch.diff" % (WT, d))
+    compiled, passed = run_demo()
+    if kind == "must_not_compile":
+        out["demo_shows_break_with_patch"] = compiled
+    elif kind == "must_compile":
+        out["demo_shows_break_with_patch"] = not compiled
+    else:
+        bad = not passed
+        if not bad:
+            c2, p2 = run_demo(" --release")
+            bad = not p2
+        out["demo_shows_break_with_patch"] = bad
     os.remove(WT + "/tests/zz_seed_demo.rs")
-    c = sh("cargo test --offline --lib --tests 2>&1 | grep -E 'test result|FAILED|error' | head -20", cwd=WT, env=env)
-    out["existing_suite_passes_with_patch"] = "FAILED" not in c.stdout and "error" not in c.stdout and "test result: ok" in c.stdout
+    c = sh("cargo test --offline --lib --tests 2>&1 | grep -E '^test result|FAILED|^error' | head -30", cwd=WT, env=env)
+    out["existing_suite_passes_with_patch"] = "FAILED" not in c.stdout and "error" not in c.stdout and c.stdout.count("test result: ok") >= 10
     sh("git -C %s checkout -q -- . && git -C %s clean -fdq" % (WT, WT))
     return out
 
